@@ -331,6 +331,8 @@ class StateAnalysis:
         dep = self.value_deps(attr)
         if not dep:
             return True, "J1: the stored value depends on nothing that varies between calls"
+        if all(self.preserves(e, attr) for e in self.entries):
+            return True, "J3: every entry restores the attribute's entry value before it returns (save / temporary write / restore)"
         fi = self.info(f)
         g = fi.cfg
         if self._feeds_only_guards(f, node, attr):
@@ -388,6 +390,98 @@ class StateAnalysis:
         self.bad_guards = [(h, w) for h, w in notes if h.id in on_path] or notes
         why = "; ".join(f"guard `{h.text()[:70]}`: {w}" for h, w in self.bad_guards[:3]) or "no guard at all on a write-free path"
         return False, f"value depends on {sorted(x[1] for x in dep)}; {why}"
+
+    # -- J3: save / temporary write / restore ------------------------------------------
+    def preserves(self, f, attr, _stack=None):
+        """True if on every normal path through f the attribute holds its entry value again at exit."""
+        memo = self.__dict__.setdefault("_preserve_memo", {})
+        key = (f, attr)
+        if key in memo:
+            return memo[key]
+        _stack = _stack or set()
+        if key in _stack:
+            return True  # inductive hypothesis for recursion
+        _stack = _stack | {key}
+        fi = self.info(f)
+        g = fi.cfg
+        binds_somewhere = {h for h, n, k in self.call_written.get(attr, []) if k == "bind"}
+
+        def callee_effect(t):
+            """'none' | 'dirty' for a self-call."""
+            if t not in self._closure([t]) and False:
+                return "none"
+            clo = self._closure([t])
+            if not any(h in binds_somewhere for h in clo):
+                return "none"
+            return "none" if self.preserves(t, attr, _stack) else "dirty"
+
+        # state: (dirty: bool, saved: frozenset of (local, index or None))
+        def transfer(n, st):
+            dirty, saved = st
+            saved = set(saved)
+            s_ = n.stmt
+            for _, t in fi.calls.get(n.id, []):
+                if callee_effect(t) == "dirty":
+                    dirty = True
+            if n.kind == "stmt" and isinstance(s_, ast.Assign) and len(s_.targets) == 1:
+                tgt, val = s_.targets[0], s_.value
+                if isinstance(tgt, ast.Name):
+                    saved = {x for x in saved if x[0] != tgt.id}
+                    if not dirty:
+                        if self_attr(val, fi.selfname) == attr:
+                            saved.add((tgt.id, None))
+                        elif isinstance(val, ast.Tuple):
+                            for i, e in enumerate(val.elts):
+                                if self_attr(e, fi.selfname) == attr:
+                                    saved.add((tgt.id, i))
+                elif self_attr(tgt, fi.selfname) == attr:
+                    if isinstance(val, ast.Name) and (val.id, None) in saved:
+                        dirty = False
+                    else:
+                        dirty = True
+                elif isinstance(tgt, ast.Tuple):
+                    for i, e in enumerate(tgt.elts):
+                        if self_attr(e, fi.selfname) == attr:
+                            if isinstance(val, ast.Name) and (val.id, i) in saved:
+                                dirty = False
+                            else:
+                                dirty = True
+                return (dirty, frozenset(saved))
+            for a, k in attr_writes(n, fi.selfname):
+                if a == attr and k in ("bind", "del"):
+                    dirty = True
+            return (dirty, frozenset(saved))
+
+        def join(a, b):
+            return (a[0] or b[0], a[1] & b[1])
+
+        # correlated branches on constructor-constant flags (`if self.heterogeneous:` ... twice): case split
+        flags = {}
+        for n in g.nodes:
+            if n.kind == "if":
+                t = n.stmt.test
+                neg = isinstance(t, ast.UnaryOp) and isinstance(t.op, ast.Not)
+                a = self_attr(t.operand if neg else t, fi.selfname)
+                if a and a not in self.call_written and a not in self.late_written:
+                    flags.setdefault(a, []).append((n.id, neg))
+        names = sorted(a for a, v in flags.items() if len(v) >= 2)[:3]
+        import itertools
+        ok = True
+        for combo in itertools.product((True, False), repeat=len(names)):
+            assume = dict(zip(names, combo))
+            dead = set()
+            for a, val in assume.items():
+                for nid, neg in flags[a]:
+                    taken = val != neg
+                    dead.add((nid, "false" if taken else "true"))
+            IN, OUT = C.solve_forward(g, (False, frozenset()), transfer, join, exc_transfer=lambda n, si, so: si,
+                                      edge_filter=lambda n, s_, lab: (n.id, lab) not in dead)
+            for p, lab in g.exit.pred:
+                o = OUT.get(p.id)
+                if o is not None and o[0]:
+                    ok = False
+        memo[key] = ok
+        return ok
 
     def _guard_tests(self, f, attr):
         """Tests of the If statements that enclose a bind of `attr` in f."""
